@@ -21,7 +21,8 @@ CONSTANTS WMax,       \* worker-id pool (>= max concurrency)
           MaxStop,    \* budget of external stop requests (0/1)
           MaxConc,    \* budget of concurrency changes
           MaxRaise,   \* budget of exceptions (task or source)
-          FixStopWake \* TRUE: the repaired shutdown (DESIGN section 6, findings 1 and 2)
+          FixStopWake, \* TRUE: the repaired shutdown (DESIGN section 6, findings 1 and 2)
+          FixShutErr   \* TRUE: _shutdown_processing re-raises the failure of a worker that crashed while stopping
 
 Workers == 1..WMax
 PILL    == 0
@@ -256,7 +257,9 @@ MUnpause ==
 MShutWorkers ==
   /\ mpc = "shut_workers"
   /\ \A w \in wtasks : wpc[w] \in {"exited", "crashed"}
-  /\ wtasks' = {} /\ mpc' = "shut_producer"
+  \* asyncio.wait(worker_tasks) never looks at the tasks' exceptions; the repaired code collects the first one
+  /\ wtasks' = {}
+  /\ mpc' = IF FixShutErr /\ \E w \in wtasks : wpc[w] = "crashed" THEN "shut_producer_err" ELSE "shut_producer"
   /\ wpc' = [w \in Workers |-> IF w \in wtasks THEN "none" ELSE wpc[w]]
   \* repaired code: release a producer that is parked on the condition (nobody is left to notify it)
   /\ IF FixStopWake
@@ -267,8 +270,8 @@ MShutWorkers ==
 
 \* yield from self._producer_task
 MShutProducer ==
-  /\ mpc = "shut_producer" /\ ppc = "done"
-  /\ IF pexc THEN mpc' = "error" /\ returned' = "error" /\ UNCHANGED pstate
+  /\ mpc \in {"shut_producer", "shut_producer_err"} /\ ppc = "done"
+  /\ IF pexc \/ mpc = "shut_producer_err" THEN mpc' = "error" /\ returned' = "error" /\ UNCHANGED pstate
              ELSE mpc' = "returned" /\ returned' = "ok" /\ pstate' = "stopped"
   /\ UNCHANGED <<wtasks, conc, unpaused>>
   /\ UNCHANGED <<qvars, pvars, wvars, budvars>>
@@ -334,5 +337,5 @@ TypeOK ==
   /\ unfinished \in 0..(K + 1) /\ src \in 1..(K + 1) /\ conc \in 0..CMax
   /\ ppc \in {"start", "get", "src", "put", "put_wait", "ww_wait", "exit", "exit_exc", "done"}
   /\ \A w \in Workers : wpc[w] \in {"none", "get", "parked", "body", "fin", "exited", "crashed"}
-  /\ mpc \in {"loop", "waiting", "paused", "shut_workers", "shut_producer", "returned", "error"}
+  /\ mpc \in {"loop", "waiting", "paused", "shut_workers", "shut_producer", "shut_producer_err", "returned", "error"}
 =============================================================================
